@@ -3,6 +3,7 @@ package c06
 import (
 	"fmt"
 	"math/rand"
+	"time"
 
 	"github.com/kardiachain/go-kardia/kai/rawdb"
 	"github.com/kardiachain/go-kardia/lib/common"
@@ -211,9 +212,16 @@ func longCase(c *core.Case) {
 	if r.Intn(2) == 0 {
 		o.Galaxias = "genesis"
 	}
+	// replica 0: a long-running node with the snapshot whose dirty trie cache never fills (nothing reaches its disk but
+	// through the snapshot); replica 1: a long-running trie-only node with a small dirty-cache allowance (beyond 128 blocks
+	// triedb.Cap writes its oldest trie nodes to disk); replica 2 is stopped and reopened; replica 3: an archive node in every
+	// other chain (every trie on disk at once), any of the remaining configurations in the others
 	first := []string{"default", "node-defaults", "preimages"}
-	fourth := []string{"tiny-caches", "archive-node", "dirty-disabled", "node-defaults", "noprefetch+snapshots-off+dirty-disabled"}
-	o.Replicas = []repCfg{cfgByName(first[r.Intn(len(first))]), cfgByName("snapshots-off"), cfgByName("default"), cfgByName(fourth[r.Intn(len(fourth))])}
+	fourth := []string{"tiny-caches", "archive-node", "dirty-disabled", "node-defaults", "noprefetch+snapshots-off+dirty-disabled", "small-dirty-cache"}
+	if c.I%2 == 0 {
+		fourth = []string{"archive-node", "dirty-disabled", "noprefetch+snapshots-off+dirty-disabled"}
+	}
+	o.Replicas = []repCfg{cfgByName(first[r.Intn(len(first))]), cfgByName("snapshots-off+small-dirty-cache"), cfgByName("default"), cfgByName(fourth[r.Intn(len(fourth))])}
 	if runScenario(c, r, o, "long") != nil {
 		c.Run.Count("long_chains", 1)
 	}
@@ -236,6 +244,12 @@ type longObserver struct {
 	wasOnDisk  map[uint64]bool
 	bornAt     map[common.Address]int
 	deadSince  map[common.Address]int
+	// the garbage-collecting replica with the small dirty-cache allowance (never stopped: nothing but triedb.Cap writes its tries)
+	gc       int                // its index (-1: none)
+	rootAt   []common.Hash      // state root by height
+	gcOnDisk int                // highest height whose state root is in its database
+	gcDirty  common.StorageSize // its dirty trie cache after the previous block
+	firstCap int                // height of the first observed flush
 }
 
 func trackedSlots() []uint64 {
@@ -261,7 +275,72 @@ func newLongObserver(run *core.Run, ch0 *chainkit.Chain) *longObserver {
 	if d, ok := lo.roots[rawdb.ReadSnapshotRoot(ch0.N.DB)]; ok {
 		lo.disk = d
 	}
+	lo.gc, lo.rootAt = -1, []common.Hash{ch0.State.AppHash}
 	return lo
+}
+
+// capWatch follows the database of the long-running replica with the small dirty-cache allowance: it is never stopped
+// and its time allowance (5 minutes of block processing) is out of reach, so a state root of a block above the genesis
+// appears in its database only when triedb.Cap flushed the nodes up to it.
+func (lo *longObserver) capWatch(h int, rs *replicaSet) {
+	run := lo.run
+	lo.rootAt = append(lo.rootAt, rs.chains[0].State.AppHash)
+	if lo.gc < 0 {
+		for i, c := range rs.cfgs {
+			if c.Cache != nil && !c.Cache.TrieDirtyDisabled && c.Cache.TrieDirtyLimit == 1 && c.Cache.TrieTimeLimit >= time.Minute && rs.restarts[i] == 0 {
+				lo.gc = i
+				break
+			}
+		}
+		if lo.gc < 0 {
+			return
+		}
+	}
+	if rs.restarts[lo.gc] > 0 {
+		return
+	}
+	ch := rs.chains[lo.gc]
+	st, err := ch.N.BC.State()
+	if err != nil {
+		return
+	}
+	dirty, _ := st.Database().TrieDB().Size()
+	run.Max("gc_replica_dirty_trie_cache_max_kib", int64(dirty/1024))
+	adv := false
+	for lo.gcOnDisk+1 < len(lo.rootAt) {
+		if ok, _ := ch.N.DB.Has(lo.rootAt[lo.gcOnDisk+1].Bytes()); !ok {
+			break
+		}
+		lo.gcOnDisk++
+		adv = true
+	}
+	if adv {
+		run.Count("trie_cap_flushes_observed_on_the_gc_replica", 1)
+		if lo.firstCap == 0 {
+			lo.firstCap = h
+			run.Count("long_chains_with_a_trie_cap_flush", 1)
+		}
+		if lo.gcDirty > dirty {
+			run.Max("trie_cap_largest_observed_flush_kib", int64((lo.gcDirty-dirty)/1024))
+			if lo.gcDirty-dirty >= 200*1024 {
+				run.Count("trie_cap_flushes_of_several_full_batches", 1)
+			}
+		}
+	}
+	lo.gcDirty = dirty
+	if lo.firstCap > 0 && h > lo.firstCap {
+		archive := false
+		for i, c := range rs.cfgs {
+			if i != lo.gc && c.Cache != nil && c.Cache.TrieDirtyDisabled {
+				archive = true
+			}
+		}
+		// (every replica is compared with replica 0 in every block: equal results of the flushing replica and of an archive replica follow)
+		run.Count("comparisons_after_a_trie_cap_flush:flushing_vs_long_running_replica", 1)
+		if archive {
+			run.Count("comparisons_after_a_trie_cap_flush:flushing_vs_archive_replica", 1)
+		}
+	}
 }
 
 func (lo *longObserver) after(h int, rs *replicaSet, bi *types.BlockInfo) {
@@ -337,6 +416,7 @@ func (lo *longObserver) after(h int, rs *replicaSet, bi *types.BlockInfo) {
 			lo.deadSince[ev.Addr], lo.bornAt[ev.Addr] = 0, h
 		}
 	}
+	lo.capWatch(h, rs)
 	// where the disk layer stands now
 	lo.roots[rs.chains[0].State.AppHash] = h
 	if d, ok := lo.roots[rawdb.ReadSnapshotRoot(rs.chains[0].N.DB)]; !ok {
